@@ -12,10 +12,15 @@ Engines
   TSAN   the same bodies free-running (no scheduler) on the tsan flavour; any ThreadSanitizer report is a violation.
   FILL   every solo body under allocator fill patterns {00,FF,55,AA,7F}: digests must not change.
   VG     every solo body under valgrind memcheck (use of uninitialised values, undefined bytes reaching an output).
+  REENT  two vorbisfile threads interleaved at callback granularity (the only yield points inside a vorbisfile call): for every callback
+         invocation i of an operation of thread A, thread B's whole operation runs inside it; one OS thread, two OS threads, ASan with a
+         fresh process per execution; thorough: two preemptions.  Oracle: both observations bit-identical to the solo runs (pylib/c18_reent.py).
 """
 import os, sys, json, time, re, subprocess, itertools, threading, tempfile, shutil
 import concurrent.futures as cf
 import vlib
+import c18_ambient
+import c18_reent
 
 PID = 'C18'
 ALL_BODIES = ['ENCA', 'ENCB', 'ENCC', 'ENCD', 'ENCM', 'ENCH', 'ENCW', 'ENCQ', 'ENCP', 'ENMR', 'ENML', 'ENM6', 'ENM0', 'ENCT', 'ENCS', 'DECA', 'DECB', 'DECF', 'DECH', 'DECL', 'DECR', 'VFA', 'VFB', 'VFF', 'VFC', 'VFL', 'VFR', 'VLAP', 'VLAQ', 'CMT']
@@ -249,6 +254,9 @@ def _run(chk, tier, t0, deadline, exe, texe, st):
     have_vg = subprocess.run('command -v valgrind', shell=True, stdout=subprocess.PIPE).returncode == 0
     vg_futs = {b: bg.submit(lambda b=b: run_valgrind(exe, st, b, left())) for b in ALL_BODIES} if have_vg else {}
 
+    # ---------------- REENT: callback-granularity interleaving of two vorbisfile threads (pylib/c18_reent.py, harness/c18_reent.c); first, so that the deadline never cuts it
+    reent = c18_reent.run_family(chk, tier) if not os.environ.get('C18_ONLY') or os.environ.get('C18_ONLY') == 'reent' else None
+
     # ---------------- solo references + heap-fill reproducibility
     cases = [f'solo {b}' for b in ALL_BODIES] + [f'fill {b} {p}' for b in ALL_BODIES for p in FILLS] + [f'sfill {b} {w}' for b in ALL_BODIES for w in STACK_WORDS]
     res = vlib.run_cases(exe, cases, fixed, tag='c18a')
@@ -296,6 +304,10 @@ def _run(chk, tier, t0, deadline, exe, texe, st):
     cov['stackfill'] = {'words': ['0x' + w for w in STACK_WORDS], 'bytes_prefilled_before_every_api_call': 262144, 'bodies': len(ALL_BODIES), 'identical_digests': sfill_ok, 'of': len(ALL_BODIES) * len(STACK_WORDS)}
     cov['fill'] = {'patterns': ['0x%02x' % p for p in FILLS], 'bodies': len(ALL_BODIES), 'identical_digests': fill_ok, 'of': len(ALL_BODIES) * len(FILLS)}
     cov['bodies'] = {b: {'what': BODY_DOC[b], 'g1_steps': int(d['steps']), 'api_calls': int(d['api']), 'allocator_calls_inside_api': int(d['allocs']), 'nonzero_outputs': int(d['nonzero']), 'padded_packets': int(d.get('padded', 0)), 'tiny_encode_packets': int(d.get('tinypk', 0))} for b, d in solo.items()}
+
+    # ---------------- ambient-state axis of the reproducibility clause: errno alphabet / interleaved failing handle, out-parameter fill alphabet (pylib/c18_ambient.py)
+    if not os.environ.get('C18_ONLY') or os.environ.get('C18_ONLY') == 'ambient':
+        c18_ambient.run_family(chk, tier, exe, mach)
 
     # ---------------- scheduler exploration
     jobs = [j for j in plan_jobs(tier) if all(b in solo for b in j.bodies)]      # a body that does not complete alone is a violation already
@@ -507,6 +519,9 @@ def _run(chk, tier, t0, deadline, exe, texe, st):
                 '(more blocks than threads); per system: all schedules with <= c preemptions, c iterated 0..max_bound, a bound-c run must reproduce the bound-(c-1) count.',
         'samples': [{'system': j.name(), 'order_of_g1_steps': o} for j in jobs[::max(1, len(jobs) // 10)] for o in sorted(j.orders, key=lambda o: (not nontrivial(o), o))[:1]],
     })
+    if reent:
+        c18_reent.fold(cov, reent)
+        chk.assumptions += c18_reent.ASSUMPTIONS
     chk.assumptions += [
         'scheduling points exist only where the harness can place them without touching the source: body step boundaries, API call boundaries, allocator calls inside API calls; '
         'interleavings at finer grain (between two instructions of one library function) are covered only by the free-running ThreadSanitizer pass',
@@ -516,6 +531,8 @@ def _run(chk, tier, t0, deadline, exe, texe, st):
         'libogg is the uninstrumented system library: races inside libogg code are invisible to the TSan pass (its data is still per instance)',
     ]
     # ---------------- vacuity guards
+    if reent and not chk.violations:
+        c18_reent.guards(chk, reent, tier)
     if not chk.violations:
         expl = [j for j in jobs if j.cmax >= 1 and 1 in j.per_bound and j.per_bound[max(j.per_bound)]['schedules'] > 2 * len(j.bases)]
         bad = [j.name() for j in expl if len(j.orders) < 2 or sum(1 for o in j.orders if nontrivial(o)) < 1 or j.per_bound[max(j.per_bound)]['midbody_preemptions'] <= 0]
@@ -542,6 +559,10 @@ def replay(path):
     exe = vlib.harness('plain', 'c18_sched')
     st = streams(exe)
     k = r.get('kind')
+    if k == 'reent':
+        return c18_reent.replay(r)
+    if k == 'ambient':
+        return c18_ambient.replay(r)
     if k == 'sched':
         out = vlib.run_cases(exe, [f"one {r['bodies']} {r['gran']} {r['K']} {r['choices']}"], st, jobs=1)
         print(out[0])
